@@ -167,7 +167,8 @@ static void run_case(rng &r, long long idx, bool thorough)
 		apply(P, hadP, i, -1); judge(c, "prefix", std::to_string(i) + " complete writes");
 		if (i < W.size()) {
 			size_t len = W[i].bytes.size();
-			size_t step = (thorough || len <= 600) ? 1 : 1 + len / 300;
+			// every byte prefix for data areas up to 8 KiB in thorough (600 bytes in quick), about 3000 (300) evenly spread cuts beyond that
+			size_t step = ((thorough && len <= 8192) || len <= 600) ? 1 : 1 + len / (thorough ? 3000 : 300);
 			for (size_t k = 1; k < len; k += step) { apply(P, hadP, i, (long)k); judge(c, "byte_prefix", std::to_string(i) + " writes + " + std::to_string(k) + " bytes"); }
 		}
 	}
